@@ -204,6 +204,8 @@ def big_counts(res, vh):
 def run(res):
     vh, exe = P.base(res, PROP)
     big_counts(res, vh)
+    from . import devspec
+    devspec.check(res, gen.read_devices(vh), ("RAM start",))
     devs = [d for d in gen.read_devices(vh)[1:] if d[1] >= 512]
     rng = random.Random(res.seed)
     cases = [gen_case(rng, devs) for _ in range(4000 if res.tier == "quick" else 1500000)]
